@@ -22,14 +22,37 @@ pub fn observe(v: f64, accuracy: f32, max_den: u8, max_whole: u32) -> Value {
     } else {
         "pos"
     };
-    let mut o = json!({
+    let o = json!({
         "vclass": vclass,
         "vint": v.is_finite() && v.fract() == 0.0,
         "vtrunc_le": v.is_finite() && v.trunc() <= max_whole as f64,
         "maxWholeI": small(max_whole),
         "maxDenI": max_den,
     });
-    match guarded(|| Number::new_approx(v, accuracy, max_den, max_whole)) {
+    describe(o, v, accuracy, max_whole, guarded(|| Number::new_approx(v, accuracy, max_den, max_whole)))
+}
+
+/// try_approx on a number that is already a fraction (as the parser or an earlier fit leaves it): the limits apply to
+/// what comes out all the same
+pub fn observe_try(whole: u32, num: u32, den: u32, accuracy: f32, max_den: u8, max_whole: u32) -> Value {
+    let start = Number::Fraction { whole, num, den, err: 0.0 };
+    let v = whole as f64 + num as f64 / den as f64;
+    let o = json!({
+        "vclass": "pos",
+        "vint": v.fract() == 0.0,
+        "vtrunc_le": v.trunc() <= max_whole as f64,
+        "maxWholeI": small(max_whole),
+        "maxDenI": max_den,
+    });
+    let r = guarded(|| {
+        let mut x = start.clone();
+        if x.try_approx(accuracy, max_den, max_whole) { Some(x) } else { None }
+    });
+    describe(o, v, accuracy, max_whole, r)
+}
+
+fn describe(mut o: Value, v: f64, accuracy: f32, max_whole: u32, result: Result<Option<Number>, String>) -> Value {
+    match result {
         Err(p) => {
             o["obs"] = json!({"kind": "panic", "sig": panic_signature(&p)});
         }
@@ -106,6 +129,20 @@ pub fn main(args: &[String]) {
         let a: f32 = if rng.gen_bool(0.3) { [0.0, 0.01, 0.05, 0.1, 0.5, 1.0][rng.gen_range(0..6)] } else { rng.gen_range(0.0..=1.0) };
         pts.push((v, a, rng.gen_range(0..=64u8), wholes[rng.gen_range(0..wholes.len())]));
     }
+    // numbers that already are fractions (written in a recipe, or left by an earlier fit) through try_approx
+    let mut tries = Vec::new();
+    for (w, n, d) in [(1u32, 7u32, 9u32), (0, 5, 4), (7, 1, 2), (2, 7, 16), (0, 1, 3), (3, 3, 8), (0, 9, 10), (12, 0, 1), (0, 1, 64), (5, 15, 16)] {
+        for md in [1u8, 2, 4, 8, 10, 16, 64] {
+            for mw in [0u32, 1, 5, 400, u32::MAX] {
+                for a in [0.0f32, 0.05, 0.3, 1.0] {
+                    let mut o = observe_try(w, n, d, a, md, mw);
+                    o["src"] = json!(format!("try_approx of {w} {n}/{d} acc={a} maxDen={md} maxWhole={mw}"));
+                    tries.push(o);
+                }
+            }
+        }
+    }
+    out.extend(tries);
     let extra: Vec<Value> = pts
         .par_iter()
         .map(|(v, a, d, w)| {
